@@ -5,7 +5,8 @@
    covered by the correspondence (instrumented value types) and the oracle, and erase on
    VaryingSize lists of non-trivial types is the recorded known finding. *)
 From Coq Require Import ZArith List Bool.
-From Cntgs Require Import Base Layout Mem Vector Spec Rep LifeThm StableThm.
+From Coq Require Import Permutation.
+From Cntgs Require Import Base Layout Mem Vector Spec Rep LifeThm StableThm NtRefine LifeHist.
 Import ListNotations.
 Local Open Scope Z_scope.
 
@@ -44,3 +45,42 @@ Example C06_example :
   keep ctor_of (snd (fst (store L [[[2; 0]]; [[1; 1; 1; 1]; [2; 2; 2; 2]]; [[7; 7; 7]]] 0%nat (mfill 170) 8)))
     = [(12, 4); (16, 4); (20, 3)].
 Proof. vm_compute. reflexivity. Qed.
+
+(* HISTORY level (LifeHist.v).  One operation, any represented state, every well-formed list
+   whose non-trivial types have a non-trivial constructor AND destructor and whose span sizes
+   are of a trivially copyable type: the objects the operation constructs and destroys turn the
+   objects held before into the objects held after - emplace_back constructs exactly the
+   objects of the new element where it is placed; pop_back / clear / erase(first, end())
+   destroy exactly the objects of the removed elements; a growing reserve constructs every
+   object once in the new block (at its old offset) and destroys every object of the old block
+   once, finding them through the load path in the MOVED-FROM source (the sizes of the spans
+   are still there: relocate_elems_src, load_from_agree).  Objects are (block, offset, size);
+   fresh block ids come from a counter. *)
+Theorem C06_step_turns_held_objects_into_held_objects : forall L, wf_plist L = true ->
+  (forall p, In p L -> ntc p = ntd p) -> cft L = true ->
+  forall junk v nb s o offs,
+  RepO L v (s_elems s) offs -> v_cap v = s_cap s -> svalid L (fixed_counts L (v_fixed v)) s o -> lt_ok s o ->
+  (exists b0, v_bid v = Some b0 /\ (b0 < nb)%nat) ->
+  let v' := fst (fst (lstep L junk (v, nb) o)) in
+  let nb' := snd (fst (lstep L junk (v, nb) o)) in
+  let evs := snd (lstep L junk (v, nb) o) in
+  Rep L v' (s_elems (sstep s o)) /\ v_cap v' = s_cap (sstep s o) /\ v_fixed v' = v_fixed v /\
+  (exists b0, v_bid v' = Some b0 /\ (b0 < nb')%nat) /\
+  Permutation (live L v (s_elems s) ++ keep born evs) (keep died evs ++ live L v' (s_elems (sstep s o))).
+Proof. exact lstep_balance. Qed.
+Print Assumptions C06_step_turns_held_objects_into_held_objects.
+
+(* a whole life: construction, ANY valid history (erase only up to the end), destruction:
+   the constructions and the destructions coincide as multisets - every object constructed
+   (by emplace_back or by a relocation) is destroyed exactly once, nothing else is *)
+Theorem C06_whole_life_objects_balanced : forall L cap budget fixed aid junk bid tbid h,
+  wf_plist L = true -> (forall p, In p L -> ntc p = ntd p) -> cft L = true ->
+  0 <= cap -> Forall (fun c => 0 <= c) fixed ->
+  let v0 := fst (mkvec L cap budget fixed aid junk bid tbid) in
+  let s0 := {| s_cap := cap; s_elems := [] |} in
+  shist_valid L (fixed_counts L fixed) s0 h -> lt_hist_ok s0 h ->
+  let r := lrun L junk (v0, S (Nat.max bid tbid)) h in
+  let evs := snd r ++ destroy L (fst (fst r)) in
+  Permutation (keep born evs) (keep died evs).
+Proof. exact whole_life_objects_balanced. Qed.
+Print Assumptions C06_whole_life_objects_balanced.
